@@ -52,6 +52,19 @@ func freshDecls() []fresh {
 		{"macro", func() []*doc.Node {
 			return []*doc.Node{doc.N("MACRO", "@freshM").WithParen().WithKids(doc.N("200", "any"))}
 		}, nil, ""},
+		// an unused macro adds nothing whatever it holds: declarations of every named kind, an
+		// interaction, a PASTE of another (fresh) macro
+		{"macro-holding-declarations", func() []*doc.Node {
+			return []*doc.Node{doc.N("MACRO", "@freshM2").WithParen().WithKids(
+				doc.N("ENUM", "@freshME").WithBody("[1, 2]"),
+				doc.N("TYPE", "@freshMT").WithBody("{\n  \"k\": 1 // {enum: @freshME}\n}"),
+				doc.N("GET", "/freshmacro/x").WithParen().WithKids(doc.N("200", "@freshMT")))}
+		}, nil, ""},
+		{"macro-pasting-a-macro", func() []*doc.Node {
+			return []*doc.Node{
+				doc.N("MACRO", "@freshM3").WithParen().WithKids(doc.N("ENUM", "@freshME3").WithBody("[\"a\"]")),
+				doc.N("MACRO", "@freshM4").WithParen().WithKids(doc.N("PASTE", "@freshM3"))}
+		}, nil, ""},
 		{"method", func() []*doc.Node {
 			return []*doc.Node{doc.N("GET", "/freshpath/x").WithParen().WithKids(doc.N("200", "any"))}
 		}, []string{"interactions/http GET /freshpath/x", "tags/@freshpath"}, ""},
